@@ -84,6 +84,7 @@ pub fn obs(rt: &CoreRuntime) -> Value {
         "imr": rt.memory.read_internal_byte_silent(0xFB).unwrap_or(0), "isr": rt.memory.read_internal_byte_silent(0xFC).unwrap_or(0),
         "pw": pw, "inint": if t.in_interrupt { 1 } else { 0 }, "pend": if t.irq_pending { 1 } else { 0 },
         "tot": t.irq_total, "instr": rt.instruction_count(), "cyc": rt.cycle_count(),
+        "src": match t.last_irq_src.as_deref() { Some("MTI") => 0, Some("STI") => 1, Some("KEY") => 2, Some("ONK") => 3, _ => -1 },
         "nm": if live_m { t.next_mti } else { 0 }, "ns": if live_s { t.next_sti } else { 0 },
     })
 }
